@@ -9,18 +9,115 @@ TECH = ("bounded symbolic execution of the real Rust code (Kani 0.68 -> CBMC 6.1
 
 # property -> (level category, claim text, level note, technique suffix, design ref)
 CLAIMS = {
+    "C01": ("model_checking",
+            "Each region operation is checked as ONE inductive step of the real code from an arbitrary database state satisfying the "
+            "representation invariant: Region::write_with (all placement paths, 3 entry points), truncate, rename, remove run on a Database "
+            "built directly (real Layout, RegionMetadata, Regions); the data file is a ghost (writes/copies are events), so 'bytes read back' "
+            "is decided as a placement algebra + frame condition (exactly one data write at new_start+offset, old bytes copied iff relocated, "
+            "no event inside any other region's extent, other regions' metadata unchanged). Quick tier: truncate, rename, Layout promotion; "
+            "the write_with shapes (8-16 min, 30-40 GB each) and remove are thorough tier.",
+            "Bounds: concrete world shapes with concrete extent sizes (1-4 pages), <=3 regions, data <= 5 pages; symbolic content lengths, "
+            "offsets, metadata states, file length, growth failure. Slot bytes abstracted to decoded fields by a cfg(kani) hook (codec itself: C17). "
+            "Reopen (Regions::fill/Layout::from) is NOT decided (only the slot codec round trip, C17). Histories = induction over the step lemma; "
+            "the invariant (DESIGN 5 C02) is re-established by every step harness.",
+            "inductive step harnesses over a ghost-event data file", "5 C01"),
+    "C02": ("model_checking",
+            "Level 1: every Layout operation (len, is_last_anything, best-fit search, hole split, remove_region, promote_pending_holes, reserve/move) "
+            "is checked against its contract on arbitrary INV layouts of enumerated shapes with symbolic extent sizes, with a pointwise oracle "
+            "(classification of one symbolic byte address before/after). Level 2 (thorough): write_with / remove / create_region_if_needed on a real "
+            "Database re-establish INV pointwise and obey best-fit reuse.",
+            "Bounds: shapes of 2-5 extents, sizes 1..3|4|8 pages, model ordered maps of capacity 4 (std BTreeMap/SmallVec replaced by a sorted-array model), "
+            "Layout::from / reopen not decided.",
+            "per-operation contract harnesses, pointwise layout oracle", "5 C02"),
+    "C03": ("model_checking",
+            "The real ReadWriteRawVec<usize,u32,BytesStrategy> is built directly in an arbitrary valid overlay state over a tiny real data file "
+            "(rawdb in contract mode) and one step of each operation is compared pointwise with the reference list-of-optional-values model computed "
+            "from the fields: truncate_if_needed_at, update_at, delete_at, push (quick), write() with on-disk bytes compared (thorough), plus all "
+            "index/range read paths.",
+            "Bounds: <=3 stored + 2 pushed u32, <=2 deleted, <=2 updated slots, 48-byte file. Only the raw Bytes format with u32; compressed formats, "
+            "ZeroCopy, EagerVec wrappers over real formats, reset, re-import and the holes region (needs the allocator) are outside; the file-IO scan "
+            "back-end is cut.",
+            "contract-mode inductive step harnesses vs reference model", "5 C03"),
+    "C05": ("model_checking",
+            "Crash safety is decided on the ghost event log of the real code: Database::flush orders fdatasync(data) strictly before fdatasync(regions), "
+            "marks clean only after both, promotes freed extents only after both and never on failure (thorough, 11 min); write_with copies before it "
+            "writes before it publishes the slot and never touches another region's or a pending extent (thorough); the Layout harnesses show that an "
+            "extent freed since the last flush is never reused or grown over (is_last_anything / len / best fit ignore pending holes) - quick tier.",
+            "The durable-image reconstruction with per-page subsets (DESIGN 5 C05) is NOT built: the claim is the ordering + no-touch lemmas it rests on. "
+            "4 KiB slot writes atomic; torn pages, msync semantics outside.",
+            "event-order assertions over a ghost log + Layout contracts", "5 C05"),
+    "C06": ("model_checking",
+            "EagerVec's generic compute code runs unchanged over a storage model (the reference vector as a StoredVec) and mock sources; each method is "
+            "checked in the inductive one-call form: arbitrary output state with a correct prefix and a stale tail, one call with max_from inside the "
+            "correct prefix must leave exactly the from-scratch result (covers first computation, append, truncation+regrowth, redundant calls).",
+            "Bounds: source length <= 3, window 1..4, u32->u64; methods: compute_transform, compute_max, compute_cumulative (quick), compute_sum (thorough). "
+            "The other ~35 compute_* methods, batch splitting (MAX_CACHE_SIZE at its real value => single batch) and real storage formats under the column are outside.",
+            "inductive one-call harnesses over a storage model", "5 C06"),
+    "C08": ("model_checking",
+            "Index-addressed and range reads of the read-write raw vector (collect_one_at, get_any_or_read_at, fold/try_fold over the mmap source, the "
+            "pushed tail and the overlay-merging fold_dirty) are compared with the reference contents for symbolic ranges incl. reversed / out of bounds / usize::MAX; "
+            "any reachable panic is a failure. The generic default methods over mocks are exercised by the C15 harnesses.",
+            "Bounds as C03. Outside: Cursor/read_sorted on vectors with deleted slots (known panic, DESIGN 7-3, not yet a registered harness), compressed formats, "
+            "CachedVec, read-only clones, file-IO back-end.",
+            "contract-mode read harnesses vs reference model", "5 C08"),
+    "C10": ("model_checking",
+            "Only the allocator half is decided: the Layout contracts that isolation across the lock-release windows of write_with rests on "
+            "(reservations count in len() and is_last_anything, pending holes are never reused before a flush, promotion never merges across a live region).",
+            "The two-thread interference harnesses and the reader-lifetime clause (known defect DESIGN 7-2) are NOT built.",
+            "Layout contract harnesses", "5 C10"),
+    "C11": ("model_checking",
+            "Deadlock freedom is reduced to per-operation obligations checked by the solver on the lock tap of the real code: every lock request happens "
+            "while only locks of strictly smaller class in the documented order are held, no held lock is requested again (writer preference), nothing is "
+            "held at return. Quick: Region::truncate, Region::rename; thorough: Database::flush, Database::compact.",
+            "Trusted: the lock-hierarchy theorem. Operations not covered: write_with growth paths, remove, create, readers, all vecdb locks (pages, header) - "
+            "the pages<->mmap cycle of DESIGN 7-6 is therefore not detected.",
+            "lock-order obligations over a lock tap", "5 C11"),
+    "C12": ("model_checking",
+            "compact() = flush + punch_holes on a real Database: every punched range is page aligned, inside a region's unused reserve tail or a promoted hole, "
+            "never below ceil_page(len) of a live region, no length change (KEEP_SIZE asserted at the libc model) - thorough (heavy). Quick tier: the Layout "
+            "contracts that keep a live byte out of every promoted hole.",
+            "Writer races inside punch_holes and crash inside compact are not decided.",
+            "event assertions over the ghost log + Layout contracts", "5 C12"),
+    "C13": ("model_checking",
+            "Every refusing path that is reachable in the step harnesses is asserted to leave the observable state unchanged: truncate beyond the length, "
+            "rename onto an existing name, update beyond the length (raw vec), malformed change record (parser returns before any mutation), and in the thorough "
+            "tier write beyond the end / growth failure and removal of a still-referenced region.",
+            "import version/format mismatch (C14), checked_push, rollback without record are not decided.",
+            "refusal paths of the step harnesses", "5 C13"),
+    "C15": ("model_checking",
+            "LazyVecFrom1/2/3 over mock sources with symbolic contents and unequal lengths: every range/point/sorted read equals the defining formula and the "
+            "length equals the governing length; reachable panics are failures.",
+            "Bounds: sources <= 3 elements; LazyDeltaVec and LazyAggVec are NOT covered yet.",
+            "formula-equality harnesses over mock sources", "5 C15"),
+    "C16": ("model_checking",
+            "Only clause (c): the change-record parser on an arbitrary byte string (subsumes truncation at every offset and arbitrary length fields) returns an "
+            "error or a record that fits inside the input; cursor arithmetic cannot overflow.",
+            "Retention (save_change_file), rollback_before and the failed-rollback-leaves-vector-unchanged clause are NOT decided.",
+            "arbitrary-bytes parser harness", "5 C16"),
     "C17": ("model_checking",
-            "Every on-disk decoder is symbolically executed on arbitrary bytes (RegionMetadata slot: all "
-            "4096 bytes symbolic) and every encoder/decoder pair on arbitrary valid values; the SAT solver "
-            "shows round-trip identity and absence of panics/overflow/out-of-bounds for all inputs inside "
-            "the stated size bounds.",
-            "Bounds: region id <= 4 bytes or > 1024 (UTF-8 loop), change records <= 64 bytes, arrays N in "
-            "{1,3,33}; stubs: alloc::fmt::format, <[T]>::to_vec (bounded copy). Outside: serde, names of "
-            "5..1024 bytes with symbolic content.",
+            "Every on-disk decoder is symbolically executed on arbitrary bytes (RegionMetadata slot: all 4096 bytes symbolic) and every encoder/decoder pair on "
+            "arbitrary valid values; the solver shows round-trip identity and absence of panics/overflow/out-of-bounds (CBMC pointer checks on).",
+            "Bounds: region id <= 4 bytes or > 1024, change records <= 56 bytes, arrays N in {1,3,33,65}. Outside: serde, derive macro output, Regions::fill.",
             "codec round-trip / arbitrary-bytes harnesses", "5 C17"),
+    "C19": ("model_checking",
+            "validate_computed_version_or_reset + compute_transform over the storage model with symbolic recorded vs presented versions: changed => reset, "
+            "re-evaluation from index 0, new version recorded, marked for write-back and persisted by the next write; unchanged => nothing below "
+            "min(max_from, len) re-evaluated or altered.",
+            "One compute family (transform); persistence through the real header write is modelled by the storage model's write().",
+            "inductive one-call harnesses over a storage model", "5 C19"),
+    "C20": ("model_checking",
+            "Reads in the post-rollback state (logical length above the bytes on disk) with CBMC pointer checks on over a 48-byte file: the read-write vector "
+            "serves such indices from its overlay; the read-only clone does not (known finding F04).",
+            "Raw Bytes format, point reads only; compressed readers and range reads in the expanded state outside.",
+            "contract-mode harnesses with pointer checks", "5 C20"),
 }
 
 NOT_APPLICABLE = {
+    "C04": "rollback step lemmas need the change-file directory model (std::fs read_dir / numeric file names) and the holes region; not built in the time available - no check, nothing claimed",
+    "C07": "compressed write()/Pages harnesses not built (page capacity hook + codec stub needed); codec internals (Pco/LZ4/Zstd numeric loops, C FFI) are out of reach of Kani in any case",
+    "C09": "needs the pause-point interleaving harnesses for raw/compressed write(); not built; memory-ordering strength of SharedLen cannot be checked by Kani at all",
+    "C14": "import_with / forced_import_with call create_region_if_needed and remove_region (allocator + name index with 7-byte names): contract mode cuts the allocator; not built",
+    "C18": "kernel advisory-lock semantics (cross-process exclusion, release on last handle drop) are not encodable; the open-ordering half (try_lock before set_len) was designed but its harness is not built",
 }
 
 
